@@ -388,6 +388,32 @@ func (s *soup) mdItem(depth int, ids *[]string, asProp bool) *Node {
 // an id, which the items outside them may name in itemref (several items may share a target; a target may come
 // before or after its referrers). Targets carry no itemref themselves, so the item graph has no cycles and no
 // element is reached twice by one crawl: the documents are valid Microdata.
+func setAttr(n *Node, name, val string) {
+	for i := range n.Attrs {
+		if n.Attrs[i].Name == name {
+			n.Attrs[i].Val = val
+			return
+		}
+	}
+	n.Attrs = append(n.Attrs, Attr{name, val})
+}
+
+// firstID: the id of the node or of the first descendant that has one
+func firstID(n *Node) string {
+	if n.Text != nil {
+		return ""
+	}
+	if id, ok := n.Attr("id"); ok {
+		return id
+	}
+	for _, c := range n.Kids {
+		if id := firstID(c); id != "" {
+			return id
+		}
+	}
+	return ""
+}
+
 func hasItem(n *Node) bool {
 	if n.Text != nil {
 		return false
@@ -507,6 +533,39 @@ func (s *soup) mdDoc() *Node {
 	for _, it := range items {
 		if len(plain) > 0 && s.r.Chance(50) {
 			it.Attrs = append(it.Attrs, Attr{"itemref", refList(plain, false)})
+		}
+	}
+	// the shared block: an outer item names a plain block and a block with a nested item (either order), and that
+	// nested item names the same plain block
+	if len(plain) > 0 && len(items) > 0 && len(referrers) > 0 && s.r.Chance(40) {
+		nested := vh.Pick(s.r, items)
+		var holder string
+		for _, t := range targets {
+			var in func(n *Node) bool
+			in = func(n *Node) bool {
+				if n == nested {
+					return true
+				}
+				for _, c := range n.Kids {
+					if c.Text == nil && in(c) {
+						return true
+					}
+				}
+				return false
+			}
+			if in(t) {
+				holder = firstID(t)
+			}
+		}
+		if holder != "" && notPlain[holder] {
+			shared := vh.Pick(s.r, plain)
+			setAttr(nested, "itemref", shared)
+			outer := referrers[s.r.Intn(len(referrers))]
+			if s.r.Bool() {
+				setAttr(outer, "itemref", shared+" "+holder)
+			} else {
+				setAttr(outer, "itemref", holder+" "+shared)
+			}
 		}
 	}
 	return E("html", nil, E("head", nil), E("body", nil, body...))
